@@ -43,6 +43,17 @@ CLAIMS = {
          "outcomes for any round-tripping message codecs (Ok only from success statuses, handler errors intact, undecodable payloads -> Unknown); tied by comparing the string "
          "literals of anemo-build's generated token streams on random definitions and by typed calls through build.rs-generated clients/servers behind the real Router.",
          "serde_json/bincode message codecs are assumed to round-trip (explicit hypotheses)."),
+ "C04": ("Coq theorems over all operation histories of the active-peer set (one lock => every interleaving is a list): listing duplicate-free, no listed connection closed by "
+         "this side (fresh ids), per-peer alternation NewPeer/LostPeer ending in NewPeer iff listed, listing = event log applied to the empty set hence snapshot + later events = "
+         "listing, a replaced connection's end never disturbs its replacement; tied by replaying operation sequences on the real ActivePeers with real quinn connections "
+         "(exhaustively up to length 4 in the thorough tier) and by 8-thread stress runs linearised through the H4 trace and re-run on the model.",
+         "quinn stable-id uniqueness among live connections is assumed."),
+ "C05": ("Coq theorems: both ends' tie-break decisions agree for every pair of distinct identities and every arrival order; a finite transition system of the two handshakes, "
+         "registrations, failures and close notifications (using exactly the code's tie-break, proved to refine ActivePeers.step) whose reachable set is computed and checked "
+         "inside Coq: the survivor is never closed, every maximal schedule terminates (<= 8 steps) with both ends holding the connection dialed by the greater identity; tied by "
+         "an exhaustive tie-break comparison, by replaying every maximal schedule on two real ActivePeers sets with real connections, and by simultaneous dials of whole networks "
+         "over the fabric under seeded delay/jitter.",
+         "close propagation and handshake completion are quinn's (model steps Notice/Fail/Ready)."),
 }
 
 def main():
